@@ -30,6 +30,8 @@ AUTH_MAX = '2**61 - 1'          # SP 800-38D 5.2.1.1: len(A) <= 2^64-1 BITS
 MSG_MAX = '2**36 - 32'          # len(P) <= 2^39-256 BITS
 CTR_MAX = '2**36'               # 2^32 counter blocks of 16 bytes
 
+OPQ = ['spec.aead1.inc32', 'spec.aead1.gcm_h', 'spec.aead1.gcm_tag']      # spec functions kept uninterpreted where only congruence is needed
+
 STATE_NAMES = {('decrypt', 'digest', 'encrypt', 'update', 'verify'): 'init', ('digest', 'encrypt'): 'encrypting',
                ('decrypt', 'verify'): 'decrypting', ('digest',): 'digested', ('verify',): 'verified'}
 
@@ -52,29 +54,44 @@ TAG_NOW = 'spec.aead1.gcm_tag(%s, %s, %s, %s, self._auth_len, self._msg_len, sel
 # ... and the tag of the object whether or not it has been finalised already (cached)
 TAG = '(self._tag if self._tag is not None else %s)' % TAG_NOW
 
-VALID = [
-    'len(self._cache) < 16',
-    'self._auth_len <= %s' % AUTH_MAX,
-    'self._msg_len <= %s' % MSG_MAX,
+INV = {
+    'cache': 'len(self._cache) < 16',
+    'auth_max': 'self._auth_len <= %s' % AUTH_MAX,
+    'msg_max': 'self._msg_len <= %s' % MSG_MAX,
     # ghost links between the native objects: one key, H = CIPH_K(0^128), J0 / inc32(J0) as the two initial counter blocks
-    '%s == spec.aead1.gcm_h(%s, %s)' % (H, FID, KEY),
-    'len(%s) == 16 and self._tag_cipher.g_plen == 0 and self._tag_cipher.g_limit == -1 and self._tag_cipher.g_dir != 2' % J0,
-    'self._cipher.g_fid == %s and self._cipher.g_key == %s' % (FID, KEY),
-    'self._cipher.g_icb == spec.aead1.inc32(%s) and self._cipher.g_plen == 12 and self._cipher.g_limit == %s' % (J0, CTR_MAX),
-    'self._cipher.g_pos == self._msg_len',
+    'H': '%s == spec.aead1.gcm_h(%s, %s)' % (H, FID, KEY),
+    'j0_len': 'len(%s) == 16' % J0,
+    'tc_plen': 'self._tag_cipher.g_plen == 0', 'tc_limit': 'self._tag_cipher.g_limit == -1', 'tc_dir': 'self._tag_cipher.g_dir != 2',
+    'c_fid': 'self._cipher.g_fid == %s' % FID, 'c_key': 'self._cipher.g_key == %s' % KEY,
+    'c_icb': 'self._cipher.g_icb == spec.aead1.inc32(%s)' % J0,
+    'c_plen': 'self._cipher.g_plen == 12', 'c_limit': 'self._cipher.g_limit == %s' % CTR_MAX,
+    'c_pos': 'self._cipher.g_pos == self._msg_len',
     # the inner CTR object's direction agrees with the automaton state
-    '("encrypt" in self._next) ==> self._cipher.g_dir != 2',
-    '("decrypt" in self._next) ==> self._cipher.g_dir != 1',
+    'dir_enc': '("encrypt" in self._next) ==> self._cipher.g_dir != 2',
+    'dir_dec': '("decrypt" in self._next) ==> self._cipher.g_dir != 1',
     # associated data only before any message byte; no cached tag while data may still arrive
-    '("update" in self._next) ==> (self._status == 1 and self._msg_len == 0)',
-    '("update" in self._next or "encrypt" in self._next or "decrypt" in self._next) ==> self._tag is None',
+    'aad_first': '("update" in self._next) ==> conj(self._status == 1, self._msg_len == 0)',
+    'msg_phase': '("update" not in self._next and ("encrypt" in self._next or "decrypt" in self._next)) ==> self._status == 2',
+    'no_tag_yet': '("update" in self._next or "encrypt" in self._next or "decrypt" in self._next) ==> self._tag is None',
     # lengths of the MAC stream while the object is not finalised: S = A, then S = pad16(A) ++ C
-    'self._tag is None ==> (self._tag_cipher.g_pos == 0 and (self._status == 1 ==> (self._msg_len == 0 and len(%s) == self._auth_len)) '
-    'and (self._status == 2 ==> len(%s) == self._auth_len + (16 - self._auth_len %% 16) %% 16 + self._msg_len))' % (S, S),
+    'tc_pos': 'impl(self._tag is None, self._tag_cipher.g_pos == 0)',
+    'len_aad': 'impl(conj(self._tag is None, self._status == 1), conj(self._msg_len == 0, len(%s) == self._auth_len))' % S,
+    'len_msg': 'impl(conj(self._tag is None, self._status == 2), len(%s) == self._auth_len + (16 - self._auth_len %% 16) %% 16 + self._msg_len)' % S,
     # finalised: everything has been hashed and the cached tag is MSB_t(GHASH_H(fed) xor CIPH_K(J0))
-    'self._tag is not None ==> (self._cache == b"" and len(self._tag) == self._mac_len and '
-    'self._tag == spec.aead1.xor(spec.aead1.ghash(%s, self._signer.g_fed), spec.aead1.E(%s, %s, %s))[:self._mac_len])' % (H, FID, KEY, J0),
-]
+    'fin_cache': 'impl(self._tag is not None, self._cache == b"")',
+    'fin_len': 'self._tag is not None ==> len(self._tag) == self._mac_len',
+    'fin_tag': 'impl(self._tag is not None, self._tag == spec.aead1.xor(spec.aead1.ghash(%s, self._signer.g_fed), spec.aead1.E(%s, %s, %s))[:self._mac_len])' % (H, FID, KEY, J0),
+}
+VALID = list(INV.values())
+INV = {'inv_' + k: v for k, v in INV.items()}
+
+
+def ens(d):
+    """postconditions + the object invariant clause by clause (one conjunction `valid(self)` is too big a query)"""
+    d = dict(d)
+    d.update(INV)
+    return d
+
 
 FIELDS = {'_mac_len': 'int[4..16]', '_tag': 'bytes|none', '_auth_len': 'nat', '_msg_len': 'nat', '_cache': 'bytes',
           '_status': 'int[1..2]', '_cipher': 'obj:' + nat.CTR, '_tag_cipher': 'obj:' + nat.CTR, '_signer': 'obj:' + GH}
@@ -108,7 +125,7 @@ def add_number(reg):
                      raises={'ValueError': ('iff', 'n < 0 or blocksize < 0')}, result='bytes',
                      ensures={'value': 'be(result) == n',
                               'blocks': 'blocksize > 0 ==> (len(result) % blocksize == 0 and len(result) >= 1)',
-                              'fits8': '(blocksize == 8 and n < 2**64) ==> result == i2osp(n, 8)'},
+                              'fits8': '(blocksize == 8 and n < 2**64) ==> result == spec.aead1.u64be(n)'},
                      pure=True, assumed='bounded: bounded/bigint.py long_to_bytes against int.to_bytes'))
     reg.add(Contract(N + 'bytes_to_long', params={'s': 'bytes'}, result='int',
                      ensures={'value': 'result == be(s)',
@@ -129,6 +146,8 @@ def registry(state=None, key='GCM'):
     M = t['methods']
     fields = dict(FIELDS)
     fields['_next'] = next_type(state)
+    if set(state) & {'update', 'encrypt', 'decrypt'}:
+        fields['_tag'] = 'none'          # = invariant no_tag_yet for this state (spares the lazy union; `_tag` is never havocked: `sets`)
     reg.add(ClassContract(GM, fields=fields, valid=VALID))
 
     # ------------------------------------------------------------------ cache layer (C09)
@@ -147,11 +166,12 @@ def registry(state=None, key='GCM'):
     reg.add(Contract(GM + '.update', params={'assoc_data': 'buffer'},
                      raises={'TypeError': ('iff', 'not (%s)' % ok),
                              'ValueError': ('iff', '%s and self._auth_len + len(assoc_data) > %s' % (ok, AUTH_MAX))},
-                     ensures={'stream': '%s == %s + bytes(assoc_data)' % (S, OS),
+                     ensures=ens({'stream': '%s == %s + bytes(assoc_data)' % (S, OS),
                               'auth_len': 'self._auth_len == old(self._auth_len) + len(assoc_data)',
-                              'next': next_is(M, after(key, 'update')), 'self': 'result is self', 'valid': 'valid(self)'},
+                              'next': next_is(M, after(key, 'update')), 'self': 'result is self'}),
                      sets={'self._next': repr(list(after(key, 'update')))},
-                     modifies=['self._next', 'self._cache', 'self._signer.g_fed', 'self._auth_len'], unchanged_on_raise=['TypeError']))
+                     modifies=['self._next', 'self._cache', 'self._signer.g_fed', 'self._auth_len'], unchanged_on_raise=['TypeError'],
+                     opaque=OPQ + ['spec.aead1.pad16']))
 
     # ------------------------------------------------------------------ encrypt / decrypt
     def ks(arg):
@@ -165,44 +185,65 @@ def registry(state=None, key='GCM'):
         if meth == 'encrypt':
             # the inner CTR object (limit 2**36) is called before the GCM check: beyond 2**36 its OverflowError comes first
             raises = {'TypeError': ('iff', 'not (%s)' % ok),
-                      'ValueError': ('iff', '%s and (%s or (%s > %s and %s <= %s))' % (ok, mismatch, total, MSG_MAX, total, CTR_MAX)),
-                      'OverflowError': ('iff', '%s and not %s and %s > %s' % (ok, mismatch, total, CTR_MAX))}
+                      'ValueError': ('iff', '%s and disj(%s, conj(%s > %s, %s <= %s))' % (ok, mismatch, total, MSG_MAX, total, CTR_MAX)),
+                      'OverflowError': ('iff', '%s and conj(not %s, %s > %s)' % (ok, mismatch, total, CTR_MAX))}
         else:
             raises = {'TypeError': ('iff', 'not (%s)' % ok),
-                      'ValueError': ('iff', '%s and (%s or %s > %s)' % (ok, mismatch, total, MSG_MAX))}
+                      'ValueError': ('iff', '%s and disj(%s, %s > %s)' % (ok, mismatch, total, MSG_MAX))}
         reg.add(Contract('%s.%s' % (GM, meth), params={arg: 'buffer', 'output': 'none|bytearray'}, raises=raises,
-                         ensures={'value': '(output is None ==> result == %s) and (output is not None ==> (result is None and bytes(output) == %s))' % (val, val),
-                                  'stream_first': 'old(self._status) == 1 ==> %s == spec.aead1.pad16(%s) + %s' % (S, OS, ctv),
-                                  'stream_next': 'old(self._status) == 2 ==> %s == %s + %s' % (S, OS, ctv),
-                                  'lengths': 'self._msg_len == old(self._msg_len) + len(%s) and self._auth_len == old(self._auth_len) and self._status == 2' % arg,
-                                  'next': next_is(M, after(key, meth)), 'valid': 'valid(self)'},
+                         ensures=ens({'value': '(output is None ==> result == %s) and (output is not None ==> (result is None and bytes(output) == %s))' % (val, val),
+                                  'stream_first': 'impl(old(self._status) == 1, %s == spec.aead1.pad16(%s) + %s)' % (S, OS, ctv),
+                                  'stream_next': 'impl(old(self._status) == 2, %s == %s + %s)' % (S, OS, ctv),
+                                  'lengths': 'conj(self._msg_len == old(self._msg_len) + len(%s), self._auth_len == old(self._auth_len), self._status == 2)' % arg,
+                                  'next': next_is(M, after(key, meth))}),
                          sets={'self._next': repr(list(after(key, meth)))},
                          modifies=['self._next', 'self._status', 'self._cache', 'self._signer.g_fed', 'self._msg_len',
                                    'self._cipher.g_pos', 'self._cipher.g_dir', 'output'],
-                         unchanged_on_raise=['TypeError']))
+                         unchanged_on_raise=['TypeError'], opaque=OPQ))
 
     # ------------------------------------------------------------------ tag
     fin_mod = ['self._tag', 'self._cache', 'self._signer.g_fed', 'self._tag_cipher.g_pos', 'self._tag_cipher.g_dir']
-    idem = ('old(self._tag) is not None ==> (self._tag == old(self._tag) and self._cache == old(self._cache) and '
+    idem = ('old(self._tag is not None) ==> (self._tag == old(%s) and self._cache == old(self._cache) and ' % TAG +
             'self._signer.g_fed == old(self._signer.g_fed) and self._tag_cipher.g_pos == old(self._tag_cipher.g_pos) and '
             'self._tag_cipher.g_dir == old(self._tag_cipher.g_dir))')
     reg.add(Contract(GM + '._compute_mac', params={}, requires=['valid(self)', 'not ("update" in self._next or "encrypt" in self._next or "decrypt" in self._next)'],
                      raises={},
-                     ensures={'tag': 'result == old(%s)' % TAG, 'cached': 'self._tag == result', 'idempotent': idem, 'valid': 'valid(self)'},
-                     modifies=fin_mod, result='bytes'))
+                     ensures=ens({'tag': 'result == old(%s)' % TAG, 'cached': 'self._tag == result', 'idempotent': idem}),
+                     sets={'self._tag': 'old(%s)' % TAG}, returns='old(%s)' % TAG,
+                     lemmas={'exit': {
+                         'stream': 'old(self._tag is None) ==> %s == spec.aead1.pad16(%s) + spec.aead1.u64be(8 * self._auth_len) + spec.aead1.u64be(8 * self._msg_len)' % (S, OS),
+                         'whole_blocks': 'old(self._tag is None) ==> len(%s) %% 16 == 0' % S,
+                         'cache_empty': 'old(self._tag is None) ==> self._cache == b""',
+                         'fed': 'old(self._tag is None) ==> self._signer.g_fed == spec.aead1.gcm_s_input(%s, self._auth_len, self._msg_len)' % OS,
+                         'mask': 'old(self._tag is None) ==> spec.aead1.ctr_ks(%s, %s, %s, 0, 0, 16) == spec.aead1.E(%s, %s, %s)' % (FID, KEY, J0, FID, KEY, J0)}},
+                     modifies=fin_mod, opaque=['spec.aead1.inc32', 'spec.aead1.gcm_h', 'spec.aead1.pad16']))
     reg.add(Contract(GM + '.digest', params={}, raises={'TypeError': ('iff', 'not ("digest" in self._next)')},
-                     ensures={'tag': 'result == old(%s)' % TAG, 'cached': 'self._tag == result', 'idempotent': idem,
-                              'next': next_is(M, after(key, 'digest')), 'valid': 'valid(self)'},
-                     sets={'self._next': repr(list(after(key, 'digest')))},
-                     modifies=['self._next'] + fin_mod, unchanged_on_raise=['TypeError'], result='bytes'))
+                     ensures=ens({'tag': 'result == old(%s)' % TAG, 'cached': 'self._tag == result', 'idempotent': idem,
+                                  'next': next_is(M, after(key, 'digest'))}),
+                     sets={'self._next': repr(list(after(key, 'digest'))), 'self._tag': 'old(%s)' % TAG}, returns='old(%s)' % TAG,
+                     modifies=['self._next'] + fin_mod, unchanged_on_raise=['TypeError'], opaque=OPQ + ['spec.aead1.pad16']))
     reg.add(Contract(GM + '.verify', params={'received_mac_tag': 'buffer'},
                      raises={'TypeError': ('iff', 'not ("verify" in self._next)'),
                              'ValueError': ('iff', '"verify" in self._next and bytes(received_mac_tag) != %s' % TAG)},
-                     ensures={'cached': 'self._tag == old(%s)' % TAG, 'idempotent': idem, 'none': 'result is None',
-                              'next': next_is(M, after(key, 'verify')), 'valid': 'valid(self)'},
+                     ensures=ens({'cached': 'self._tag == old(%s)' % TAG, 'idempotent': idem, 'none': 'result is None',
+                                  'next': next_is(M, after(key, 'verify'))}),
                      on_raise={'ValueError': ['self._tag == old(%s)' % TAG, next_is(M, after(key, 'verify')), idem]},
-                     sets={'self._next': repr(list(after(key, 'verify')))},
-                     modifies=['self._next'] + fin_mod, unchanged_on_raise=['TypeError']))
+                     sets={'self._next': repr(list(after(key, 'verify'))), 'self._tag': 'old(%s)' % TAG},
+                     modifies=['self._next'] + fin_mod, unchanged_on_raise=['TypeError'], opaque=OPQ + ['spec.aead1.pad16'],
+                     options={'on_raise_modifies': ['self._next'] + fin_mod}))
+    # ------------------------------------------------------------------ construction (C02 glue, C01 mac_len domain)
+    bad = ('factory.block_size != 16 or len(nonce) == 0 or len(nonce) > %s or mac_len < 4 or mac_len > 16' % AUTH_MAX)   # 5.2.1.1: len(IV) in bits
+    reg.add(Contract(GM + '.__init__', params={'factory': 'obj:' + nat.FACTORY, 'key': 'buffer', 'nonce': 'buffer', 'mac_len': 'int',
+                                               'cipher_params': nat.EMPTY_PARAMS, 'ghash_c': 'any'},
+                     raises={'ValueError': ('iff', bad)},
+                     ensures=ens({'nonce': 'self.nonce == bytes(nonce)', 'mac_len': 'self._mac_len == mac_len',
+                                  'cipher': 'conj(%s == factory.g_fid, %s == bytes(key))' % (FID, KEY),
+                                  'j0': '%s == spec.aead1.gcm_j0(%s, %s, bytes(nonce))' % (J0, FID, KEY),
+                                  'fresh': 'conj(%s == b"", self._auth_len == 0, self._msg_len == 0, self._status == 1, self._cipher.g_pos == 0, '
+                                           'self._cipher.g_dir == 0, self._tag_cipher.g_dir == 0)' % S,
+                                  'no_tag': 'self._tag is None',
+                                  'next': next_is(M, t['init'])}),
+                     modifies=['self.*'], options={'assume_valid': False}, opaque=['spec.aead1.pad16']))
     return reg
 
 
